@@ -48,6 +48,13 @@ RowOK(r) ==
     [] r.op = "g1b"  -> Len(r.s) = 48 /\ r.s = BytesOfWord(CompressG1(C, A(C, r.P)))
     [] r.op = "g2b"  -> LET z == CompressG2(C, A(C, r.P)) IN
                         Len(r.s) = 96 /\ r.s = BytesOfWord(z[1]) \o BytesOfWord(z[2])
+    \* modular_squareroot_in_FQ2 (documented helper): None (<<>>) for a non-square; otherwise THE root with the larger
+    \* imaginary component, the larger real component when the imaginary ones are equal
+    [] r.op = "sq2"  -> LET F == C.F IN
+                        IF r.v = Zero(F) THEN TRUE      \* not asserted: no curve of odd order has a point with y = 0
+                        ELSE IF ~IsSquare(F, r.v) THEN r.r = <<>>
+                        ELSE /\ r.r # <<>> /\ IsElem(F, r.r) /\ Sqr(F, r.r) = r.v
+                             /\ LET n == Neg(F, r.r) IN r.r[2] > n[2] \/ (r.r[2] = n[2] /\ r.r[1] >= n[1])
     [] r.op = "g1p"  -> Dec1OK(C, WordOfBytes(r.s), r.r)
     [] r.op = "g2p"  -> Dec2OK(C, WordOfBytes(Slice(r.s, 1, 48)), WordOfBytes(Slice(r.s, 49, 96)), r.r)
     [] OTHER -> FALSE
